@@ -15,6 +15,7 @@ import MtailVerif.Driver.C02
 import MtailVerif.Driver.VMSrv
 import MtailVerif.Driver.C20
 import MtailVerif.Driver.C24
+import MtailVerif.Driver.C23
 /-! `mtailmodel <prop>`: reads the case lines written by the Go harness on stdin and prints
     `<id> OBS <observation>` computed by the Lean model.  Core Lean only (links as an exe). -/
 open MtailVerif MtailVerif.Driver
@@ -36,6 +37,7 @@ def handlerFor (prop : String) : Option (List String → String) :=
   | "C02" => some C02.handle
   | "C20" => some C20.handle
   | "C24" => some C24.handle
+  | "C23" => some C23.handle
   | "C11" => some (fun f => match f with | [_, _, n, _] => s!"n={n}" | _ => "bad-case")
   | "C14" => some Rt.handle
   | "C06" => some Rt.handle
